@@ -122,14 +122,26 @@ def entryClass (names : List String) (cls : String) (e : V) : Option AssocClass 
 def schemaAssocClasses (schema : V) : List (String × Option AssocClass) :=
   (schemaAssocEntries schema).map (fun e => (e.1, entryClass (schemaAssetNames schema) e.1 e.2))
 
-/-- the class stored under association name `name` with class name `cls` -/
-def schemaClassAt (schema : V) (name cls : String) : Option AssocClass :=
-  match (assocDefs schema).lookup name with
+/-- the entry stored under association name `name` with class name `cls`: directly (then `cls = name`), or as a
+sub-entry of the container of a shared name (the two-level lookup of `get_association_by_signature`) -/
+def entryAt (defs : List (String × V)) (name cls : String) : Option V :=
+  match defs.lookup name with
   | none => none
   | some e =>
     match dget e "definitions" with
-    | some subs => ((dictOf subs).lookup cls).bind (entryClass (schemaAssetNames schema) cls)
-    | none => if cls = name then entryClass (schemaAssetNames schema) cls e else none
+    | some subs => (dictOf subs).lookup cls
+    | none => if cls = name then some e else none
+
+/-- the class stored under association name `name` with class name `cls` -/
+def schemaClassAt (schema : V) (name cls : String) : Option AssocClass :=
+  (entryAt (assocDefs schema) name cls).bind (entryClass (schemaAssetNames schema) cls)
+
+/-- the class names of the association entries (sub-entries for containers) -/
+def flatKeys (defs : List (String × V)) : List String :=
+  (defs.flatMap (fun e =>
+    match dget e.2 "definitions" with
+    | some subs => dictOf subs
+    | none => [e])).map (·.1)
 
 /-! ### the language graph represents a language -/
 
